@@ -429,6 +429,21 @@ func TestC07_SparseIndices(t *testing.T) {
 				violationOrKnown(t, ev, key("check"), "Check rejects the honest share %d\n%s", order[k], ctx)
 			}
 		}
+		// the two Eval functions agree at the ends of the index range as well (x = index+1 must not wrap)
+		for _, ix := range []uint32{0, 1, 1<<31 - 1, 1 << 31, 1<<32 - 2, 1<<32 - 1} {
+			ps, qs := pri.Eval(ix), pub.Eval(ix)
+			x := new(big.Int).Add(new(big.Int).SetUint64(uint64(ix)), big1)
+			want := polyEvalBigX(coeffs, x, q)
+			if ps.I != ix || scalarToBig(ps.V).Cmp(want) != 0 {
+				violationOrKnown(t, ev, key("eval"), "PriPoly.Eval(%d) = %x, model f(%d+1) = %x\n%s", ix, scalarToBig(ps.V), ix, want, ctx)
+			}
+			if qs.I != ix || !qs.V.Equal(g.Point().Mul(scalarFromBig(g, want), nil)) {
+				violationOrKnown(t, ev, key("pubeval"), "PubPoly.Eval(%d) is not the commitment of f(%d+1)\n%s", ix, ix, ctx)
+			}
+			if !pub.Check(ps) {
+				violationOrKnown(t, ev, key("check"), "Check rejects the honest share with index %d\n%s", ix, ctx)
+			}
+		}
 		if rs, err := share.RecoverSecret(g, pl, uint32(th), uint32(n)); err != nil || scalarToBig(rs).Cmp(coeffs[0]) != 0 {
 			violationOrKnown(t, ev, key("RecoverSecret"), "RecoverSecret = %v err=%v, want %x\n%s", rs, err, coeffs[0], ctx)
 		}
@@ -458,4 +473,15 @@ func TestC07_SparseIndices(t *testing.T) {
 		}
 		ev.Case(true, ctx, "share-sparse:"+shape, fmt.Sprintf("share-sparse-n:%d", n))
 	})
+}
+
+// polyEvalBigX: Horner evaluation of the coefficient list at an arbitrary big x, mod q.
+func polyEvalBigX(coeffs []*big.Int, x, q *big.Int) *big.Int {
+	acc := new(big.Int)
+	for i := len(coeffs) - 1; i >= 0; i-- {
+		acc.Mul(acc, x)
+		acc.Add(acc, coeffs[i])
+		acc.Mod(acc, q)
+	}
+	return acc
 }
